@@ -20,6 +20,7 @@ pub mod c07_huffman;
 pub mod c08_packer;
 pub mod c09_delta;
 pub mod c10_snap_rt;
+pub mod c11_manager;
 pub mod c11_snap_total;
 pub mod c12_receiver;
 pub mod c13_manager;
